@@ -391,6 +391,7 @@ func checkC03(c *Ctx) {
 	r.Rule("R03a", "path template: for every configuration of the grid (base path × method path × config presence) the path literal reconstructed from each of the four emitting generators and the path evaluated from the OpenAPI generator are one and the same string", 40)
 	r.Rule("R03b", "verb: for every verb and for the defaulting cases (config absent, verb unset) all five generators publish the same verb, in the exact case their consumer needs (upper-case in code, lower-case key in OpenAPI)", 20)
 	r.Rule("R03c", "placement: all generators take the path-variable list and the query-field list from the shared accessors, announce every path variable, extract it from the segment where the agreed template has it, and put query fields on the wire for the same verbs", 20)
+	c18OperationParameters(c, "R03f")
 	r.Rule("R03e", "the TS client fills a path variable from the request property of the field's JSON name, also for names with upper-case letters, digits or several underscores", 1)
 	tsPathPropertyNames(c, "R03e")
 	r.Rule("R03d", "one operation per RPC: processService visits every method exactly once, processMethod keys the path item by the evaluated path, fetches an existing item before assigning, and the verb→slot switch is the identity", 6)
